@@ -291,6 +291,7 @@ func (rs *RelationService) StartTxn() {
 }
 
 func (rs *RelationService) EndTxn() {
+	verifPoint("rs.end", 0)
 	rs.fs.unlockShared()
 }
 
@@ -663,6 +664,7 @@ func (rs *RelationService) insertSchemaTable(r *Relation, tableName string) erro
 }
 
 func (rs *RelationService) Fetch(tableName string) ([]*Row, []*Field, error) {
+	verifPoint("rs.fetch", 0)
 	fmt.Printf("Select query. Table: %s\n\r", tableName)
 	fmt.Printf("page table root offset: %d\n\r", rs.fs.pageTableRoot)
 
@@ -878,6 +880,7 @@ func (rs *RelationService) scanRelation(fileOffset uint64, r *Relation, fields F
 }
 
 func (rs *RelationService) Insert(tableName string, cols []string, vals []interface{}) (WALBatch, error) {
+	verifPoint("rs.insert", 0)
 	var walLogs WALBatch
 
 	fileOffset, err := rs.getRelationFileOffset(tableName)
@@ -955,6 +958,7 @@ func (rs *RelationService) Insert(tableName string, cols []string, vals []interf
 
 // todo combine with update page table code?
 func (rs *RelationService) Update(tableName string, rowID uint32, cols []string, updateSrc []interface{}) (WALBatch, error) {
+	verifPoint("rs.update", 0)
 	var walLogs WALBatch
 
 	fileOffset, err := rs.getRelationFileOffset(tableName)
@@ -1023,6 +1027,7 @@ func (rs *RelationService) Update(tableName string, rowID uint32, cols []string,
 }
 
 func (rs *RelationService) MarkDeleted(tableName string, rowID uint32) (WALBatch, error) {
+	verifPoint("rs.delete", 0)
 	var walLogs WALBatch
 
 	fileOffset, err := rs.getRelationFileOffset(tableName)
@@ -1064,5 +1069,6 @@ func (rs *RelationService) MarkDeleted(tableName string, rowID uint32) (WALBatch
 }
 
 func (rs *RelationService) FlushWALBatch(batch WALBatch) error {
+	verifPoint("rs.flushwal", 0)
 	return rs.wal.flush(batch)
 }
